@@ -9,6 +9,7 @@ import (
 	"encoding/base64"
 	"fmt"
 	"math"
+	"reflect"
 	"sort"
 	"strconv"
 
@@ -29,19 +30,25 @@ type KV struct {
 	V V      `json:"v"`
 }
 
-func VNil() V               { return V{T: "nil"} }
-func VBool(b bool) V        { return V{T: "bool", S: strconv.FormatBool(b)} }
-func VI64(i int64) V        { return V{T: "i64", S: strconv.FormatInt(i, 10)} }
-func VU64(u uint64) V       { return V{T: "u64", S: strconv.FormatUint(u, 10)} }
-func VInt(i int) V          { return V{T: "int", S: strconv.Itoa(i)} }
-func VID(u uint64) V        { return V{T: "id", S: strconv.FormatUint(u, 10)} }
-func VF64(f float64) V      { return V{T: "f64", S: strconv.FormatFloat(f, 'g', -1, 64)} }
-func VStr(s string) V       { return V{T: "str", S: s} }
-func VURI(s string) V       { return V{T: "uri", S: s} }
-func VBin(b []byte) V       { return V{T: "bin", S: base64.StdEncoding.EncodeToString(b)} }
-func VList(items ...V) V    { return V{T: "list", L: items} }
-func VDict(kvs ...KV) V     { return V{T: "dict", K: kvs} }
-func VStrs(ss ...string) V  { l := make([]V, len(ss)); for i, s := range ss { l[i] = VStr(s) }; return V{T: "strs", L: l} }
+func VNil() V            { return V{T: "nil"} }
+func VBool(b bool) V     { return V{T: "bool", S: strconv.FormatBool(b)} }
+func VI64(i int64) V     { return V{T: "i64", S: strconv.FormatInt(i, 10)} }
+func VU64(u uint64) V    { return V{T: "u64", S: strconv.FormatUint(u, 10)} }
+func VInt(i int) V       { return V{T: "int", S: strconv.Itoa(i)} }
+func VID(u uint64) V     { return V{T: "id", S: strconv.FormatUint(u, 10)} }
+func VF64(f float64) V   { return V{T: "f64", S: strconv.FormatFloat(f, 'g', -1, 64)} }
+func VStr(s string) V    { return V{T: "str", S: s} }
+func VURI(s string) V    { return V{T: "uri", S: s} }
+func VBin(b []byte) V    { return V{T: "bin", S: base64.StdEncoding.EncodeToString(b)} }
+func VList(items ...V) V { return V{T: "list", L: items} }
+func VDict(kvs ...KV) V  { return V{T: "dict", K: kvs} }
+func VStrs(ss ...string) V {
+	l := make([]V, len(ss))
+	for i, s := range ss {
+		l[i] = VStr(s)
+	}
+	return V{T: "strs", L: l}
+}
 func VRawList(items ...V) V { return V{T: "rawlist", L: items} }
 func VRawMap(kvs ...KV) V   { return V{T: "rawmap", K: kvs} }
 
@@ -163,9 +170,10 @@ func KVsToDict(kvs []KV, res func(string) any) wamp.Dict {
 
 // Canon maps a Go value as nexus delivers it (any transport, any serializer)
 // to a canonical form on which equality means "same WAMP value":
-//   integers (any Go type, and integral floats with |x| < 2^63) -> int64 or
-//   uint64 (only when > MaxInt64); other floats -> float64; strings, URIs ->
-//   string; []byte -> canonBin; maps -> map[string]any; slices -> []any.
+//
+//	integers (any Go type, and integral floats with |x| < 2^63) -> int64 or
+//	uint64 (only when > MaxInt64); other floats -> float64; strings, URIs ->
+//	string; []byte -> canonBin; maps -> map[string]any; slices -> []any.
 type canonBin string
 
 func Canon(x any) any {
@@ -366,4 +374,22 @@ func Show(x any) string {
 		return "null"
 	}
 	return fmt.Sprint(x)
+}
+
+// reflectFields returns the struct fields of a message in declaration order.
+func reflectFields(m wamp.Message) []any {
+	rv := reflect.ValueOf(m)
+	if rv.Kind() == reflect.Pointer {
+		rv = rv.Elem()
+	}
+	var out []any
+	if rv.Kind() != reflect.Struct {
+		return out
+	}
+	for i := 0; i < rv.NumField(); i++ {
+		if rv.Field(i).CanInterface() {
+			out = append(out, rv.Field(i).Interface())
+		}
+	}
+	return out
 }
